@@ -500,3 +500,56 @@ def wasmSudo (cfg : Config E) (blk : Block) (fuel : Nat) (ch : Chain E) (contrac
 end App
 
 end CwMt
+
+namespace CwMt
+variable {E : Type}
+
+/-! ### queries: no state output by type; the snapshot is passed through unchanged -/
+
+inductive Query where
+  | balance (addr : String) (denom : String)
+  | allBalances (addr : String)
+  | supply (denom : String)
+  | wasmSmart (contract : String) (msg : Val)
+  | wasmRaw (contract : String) (key : Val)
+  | contractInfo (contract : String)
+  | codeInfo (codeId : Nat)
+  | ext (kind : ExtKind) (payload : Val)
+  deriving Repr, Inhabited
+
+inductive QueryResult where
+  | amount (n : Nat)
+  | coins (cs : Coins)
+  | bytes (v : Val)
+  | info (cd : ContractData)
+  | code (codeId : Nat) (cd : CodeData)
+  deriving Repr, Inhabited
+
+/-- `Router::query` + the bank / wasm query handlers (`extQuery` stands for the other modules). -/
+def query (cfg : Config E) (extQuery : ExtKind → Chain E → Block → Val → Outcome Val) (blk : Block)
+    (ch : Chain E) : Query → Outcome QueryResult
+  | .balance a d => if cfg.validAddr a then .ok (.amount (Bank.queryBalance ch.bank a d)) else .err
+  | .allBalances a => if cfg.validAddr a then .ok (.coins (Bank.balance ch.bank a)) else .err
+  | .supply d => .ok (.amount (Bank.supply ch.bank d))
+  | .wasmRaw c k =>
+    if cfg.validAddr c then .ok (.bytes ((((ch.cstore.get? c).getD []).get k).getD [])) else .err
+  | .contractInfo c =>
+    if !cfg.validAddr c then .err else
+    match ch.contracts.get? c with
+    | some cd => .ok (.info cd)
+    | none => .err
+  | .codeInfo n =>
+    match codeData? cfg n with
+    | some cd => .ok (.code n cd)
+    | none => .err
+  | .wasmSmart c m =>
+    if !cfg.validAddr c then .err else
+    match ch.contracts.get? c with
+    | none => .err
+    | some cd =>
+      match contractCode? cfg cd.codeId with
+      | none => .err
+      | some code => (code.query m (contractEnv blk c) ch ((ch.cstore.get? c).getD [])).map .bytes
+  | .ext kind payload => (extQuery kind ch blk payload).map .bytes
+
+end CwMt
